@@ -224,6 +224,11 @@ def histories(max_ticks: int = 40) -> Any:
     }))
 
 
+def hosted_histories() -> Any:
+    """Short histories for runs in which the manager lives in a multiprocessing child (one fork per case)."""
+    return histories(8).map(lambda c: {**c, "hosted": True})
+
+
 def has_mid(case: Dict[str, Any]) -> bool:
     return any(t.get("mid") for t in case["h"])
 
@@ -244,6 +249,8 @@ def classify(case: Dict[str, Any], res: Dict[str, Any], an: Dict[str, Any]) -> L
         cl.append("mid_tick_signal")
     if case.get("slow"):
         cl.append("slow_shutdown_worker")
+    if case.get("hosted"):
+        cl.append("manager_hosted_in_mp_child")
     return cl
 
 
